@@ -45,6 +45,9 @@ func ValueOf(value any) Value { //nolint: gocyclo
 	// interfaces
 	switch v := value.(type) {
 	case drop:
+		if nilDrop(v) {
+			return nilValue
+		}
 		return &dropWrapper{d: v}
 	case yaml.MapSlice:
 		return mapSliceValue{slice: v}
